@@ -78,6 +78,10 @@ fn run(sc: &Scenario, env: &Env, stats: &mut Stats) -> (Result<Obs, String>, Run
     let (r, info) = run_env(env, |ctx| execute_full(sc, ctx));
     stats.execution(env, &info);
     stats.operations += 4;
+    match &r {
+        Ok(o) => stats.observe(o.digest()),
+        Err(e) => stats.observe(crate::rng::hash_str(&panic_class(e))),
+    }
     (r, info)
 }
 
